@@ -305,7 +305,9 @@ def check_case(c, case, res=None):
             status, peek = wrgen.call(lambda: c.data.EoReader(whole).get_byte())
             if status == "exc":
                 raise Violation("reader_constructed", case, "a second EoReader over the same memoryview", peek)
-        r.chunked_reading_mode = True
+        status, err = wrgen.call(setattr, r, "chunked_reading_mode", True)
+        if status == "exc":
+            raise Violation("reader_constructed", case, "chunked reading mode can be switched on", err)
         per_chunk = []
         for ci, (ch, (k, surplus)) in enumerate(zip(chunks, plan)):
             vals = []
